@@ -31,7 +31,7 @@ inductive Expr (V : Type) where
   | cos : Expr V → Expr V
   | exp : Expr V → Expr V
   | tanh : Expr V → Expr V
-deriving Repr, BEq
+deriving Repr, BEq, DecidableEq
 
 namespace Expr
 variable {V W K : Type}
@@ -122,6 +122,7 @@ def affineIn [DecidableEq V] (x : V) : Expr V → Bool
 /-- sum of a list of expressions (`tensor.sum()` over the components of one row) -/
 def sumE : List (Expr V) → Expr V
   | [] => zero
+  | [e] => e
   | e :: es => add e (sumE es)
 
 end Expr
